@@ -175,6 +175,7 @@ def api_eg(d, args):
     eg.fit(args["X"], args["y"], **kw)
     return {"weights_": canon(eg.weights_), "pmf": canon(np.asarray(eg._pmf_predict(d["X"]))), "best_gap_": canon(eg.best_gap_),
             "last_iter_": canon(eg.last_iter_), "best_iter_": canon(eg.best_iter_), "n_oracle_calls_": canon(eg.n_oracle_calls_),
+            "convergence_threshold_nu_in_effect": canon(eg.nu),  # data-derived when nu=None was requested
             "lambda_vecs_": {(i, j): float(v) for j, col in enumerate(eg.lambda_vecs_.columns)
                              for i, v in enumerate(eg.lambda_vecs_[col].reindex(sorted(eg.lambda_vecs_.index, key=repr)))}}
 
